@@ -87,13 +87,13 @@ def gen_jobs(tier, seed):
 
     # single signatures: exhaustive over the menu
     for sig in menu:
-        w = build([sig], self_=rng.random() < 0.3, bodies=[rng.choice(["leaf", "leaf", "raise"])])
+        w = build([sig], self_=rng.random() < 0.3, bodies=[rng.choice(["leaf", "leaf_rw", "raise"])])
         jobs.append({"id": f"C03-s{len(jobs)}", "world": w, "shapes": shapes_for(2), "eqmode": [None, "true", None, "raise"][len(jobs) % 4]})
     # pairs: sampled (quick) / many (thorough)
     npairs = 900 if not thorough else 20000
     for _ in range(npairs):
         a, b = rng.sample(menu, 2)
-        w = build([a, b], self_=rng.random() < 0.3, bodies=[rng.choice(["leaf", "leaf", "raise"]) for _ in range(2)])
+        w = build([a, b], self_=rng.random() < 0.3, bodies=[rng.choice(["leaf", "leaf_rw", "raise"]) for _ in range(2)])
         sh = shapes_for(2)
         rng.shuffle(sh)
         jobs.append({"id": f"C03-p{len(jobs)}", "world": w, "shapes": sh[: (24 if not thorough else 64)],
